@@ -1,10 +1,12 @@
 package main
 
 import (
+	"fmt"
 	"go/ast"
 	"go/constant"
 	"go/token"
 	"go/types"
+	"sort"
 	"strings"
 
 	"golang.org/x/tools/go/cfg"
@@ -789,4 +791,143 @@ func (f *Flow) established(target ast.Node, pred func(e ast.Expr, val bool) bool
 		return edgeImplies(b, si, pred)
 	})
 	return !reachable
+}
+
+// reachErrAware is reach that prunes paths contradicting what earlier branches established about
+// error variables: after an edge on which `e != nil` holds (or `e == nil` fails), an edge that
+// requires `e == nil` is infeasible until e is assigned again. This is the `if err == nil { err =
+// step() }` chain idiom: the success exit is only reachable through every step.
+func (f *Flow) reachErrAware(starts []point, stop, target nodePred, endIsTarget bool) (ast.Node, bool) {
+	type state struct {
+		pt     point
+		nonNil string // sorted, comma separated names of error variables known non-nil
+	}
+	info := f.Info
+	isErrVar := func(e ast.Expr) types.Object {
+		id, ok := ast.Unparen(e).(*ast.Ident)
+		if !ok {
+			return nil
+		}
+		o := info.ObjectOf(id)
+		if o == nil || !types.Identical(o.Type(), types.Universe.Lookup("error").Type()) {
+			return nil
+		}
+		return o
+	}
+	seen := map[state]bool{}
+	stack := []state{}
+	for _, s := range starts {
+		stack = append(stack, state{s, ""})
+	}
+	has := func(set, name string) bool {
+		for _, x := range strings.Split(set, ",") {
+			if x == name && x != "" {
+				return true
+			}
+		}
+		return false
+	}
+	add := func(set, name string) string {
+		if has(set, name) {
+			return set
+		}
+		parts := strings.Split(set, ",")
+		if set == "" {
+			parts = nil
+		}
+		parts = append(parts, name)
+		sort.Strings(parts)
+		return strings.Join(parts, ",")
+	}
+	del := func(set, name string) string {
+		var parts []string
+		for _, x := range strings.Split(set, ",") {
+			if x != name && x != "" {
+				parts = append(parts, x)
+			}
+		}
+		return strings.Join(parts, ",")
+	}
+	key := func(o types.Object) string { return fmt.Sprintf("%s@%d", o.Name(), o.Pos()) }
+	for len(stack) > 0 {
+		st := stack[len(stack)-1]
+		stack = stack[:len(stack)-1]
+		if seen[st] {
+			continue
+		}
+		seen[st] = true
+		nn := st.nonNil
+		stopped := false
+		for j := st.pt.i; j < len(st.pt.b.Nodes); j++ {
+			n := st.pt.b.Nodes[j]
+			if stop != nil && stop(n) {
+				stopped = true
+				break
+			}
+			if target != nil && target(n) {
+				return n, true
+			}
+			if isReturn(n) {
+				stopped = true
+				break
+			}
+			// assignments to an error variable forget what was known about it
+			ast.Inspect(n, func(m ast.Node) bool {
+				if as, ok := m.(*ast.AssignStmt); ok {
+					for _, l := range as.Lhs {
+						if o := isErrVar(l); o != nil {
+							nn = del(nn, key(o))
+						}
+					}
+				}
+				return true
+			})
+		}
+		if stopped {
+			continue
+		}
+		if len(st.pt.b.Succs) == 0 {
+			if endIsTarget && !endsInReturnOrPanic(f.Info, st.pt.b) {
+				return nil, true
+			}
+			continue
+		}
+		cond, _, _ := condOf(st.pt.b)
+		for si, s := range st.pt.b.Succs {
+			next := nn
+			feasible := true
+			if cond != nil {
+				c2 := cond
+				if syn, ok := taggedCase[cond]; ok {
+					c2 = syn
+				}
+				for _, fct := range impliedFacts(c2, si == 0) {
+					be, ok := ast.Unparen(fct.expr).(*ast.BinaryExpr)
+					if !ok || (be.Op != token.EQL && be.Op != token.NEQ) {
+						continue
+					}
+					var o types.Object
+					switch {
+					case isNilIdent(info, be.Y):
+						o = isErrVar(be.X)
+					case isNilIdent(info, be.X):
+						o = isErrVar(be.Y)
+					}
+					if o == nil {
+						continue
+					}
+					nonNil := (be.Op == token.NEQ) == fct.val
+					if nonNil {
+						next = add(next, key(o))
+					} else if has(nn, key(o)) {
+						feasible = false
+					}
+				}
+			}
+			if feasible {
+				stack = append(stack, state{point{s, 0}, next})
+			}
+		}
+	}
+	return nil, false
 }
